@@ -680,28 +680,22 @@ func (ab *dsAddrBook) setAddrs(p peer.ID, addrs []ma.Multiaddr, ttl time.Duratio
 	return pr.flush(ab.ds)
 }
 
-// deletes addresses in place, avoiding copies until we encounter the first deletion.
-// does not preserve order, but entries are re-sorted before flushing to disk anyway.
+// deletes addresses in place, without allocating. Preserves the order of the
+// surviving entries.
 func deleteInPlace(s []*pb.AddrBookRecord_AddrEntry, addrs []ma.Multiaddr) []*pb.AddrBookRecord_AddrEntry {
 	if s == nil || len(addrs) == 0 {
 		return s
 	}
-	survived := len(s)
+	survived := 0
 Outer:
-	for i, addr := range s {
+	for _, addr := range s {
 		for _, del := range addrs {
-			if !bytes.Equal(del.Bytes(), addr.Addr) {
-				continue
+			if bytes.Equal(del.Bytes(), addr.Addr) {
+				continue Outer
 			}
-			survived--
-			// if there are no survivors, bail out
-			if survived == 0 {
-				break Outer
-			}
-			s[i] = s[survived]
-			// we've already dealt with s[i], move to the next
-			continue Outer
 		}
+		s[survived] = addr
+		survived++
 	}
 	return s[:survived]
 }
